@@ -20,7 +20,9 @@ MANIFEST = dict(
          "clang AST of every header on each run, evaluated by a code-shaped model of find_pdu/rfind_pdu/tins_cast "
          "(name lookup, virtual vs qualified calls, member forwarding); table theorems by kernel evaluation over all "
          "(K,T) pairs, chain theorems by induction; tied to the code by an exhaustive differential run on real "
-         "objects of every concrete class against dynamic_cast under ASan/UBSan.",
+         "objects of every concrete class against dynamic_cast under ASan/UBSan, and by the same comparison on objects built by "
+         "the (buffer, size) constructors from the wire generators' byte strings (each class on its own bytes and on those of "
+         "its hierarchy's other classes: what a class reports may depend on the header it holds).",
     note="Trusted: Lean kernel + standard axioms; translator (clang-14 AST -> table), cross-checked row by row and "
          "pair by pair against the real objects; harness/c13_lookup.cpp. PDUCacher<X> violates the property by design "
          "(known finding, reproduced on every run).",
